@@ -223,6 +223,15 @@ def gen_cases(tier, seed):
         cid = 'v%d' % k; k += 1
         lines.append('%s (vw %s %s)' % (cid, hx(st), v))
         meta[cid] = (st, v, 'bare-record-in-union')
+    # values whose encoding is zero bytes wide, and values of one byte: every writer must still write them
+    for st, v in [('"null"', '(null)'), ('{"type":"record","name":"E0","fields":[]}', '(record)'),
+                  ('{"type":"record","name":"N2","fields":[{"name":"a","type":"null"},{"name":"b","type":"null"}]}', '(record (kv #61 (null)) (kv #62 (null)))'),
+                  ('{"type":"fixed","name":"F0","size":0}', '(fixed 0 #)'),
+                  ('{"type":"record","name":"W","fields":[{"name":"e","type":{"type":"record","name":"E1","fields":[]}},{"name":"f","type":{"type":"fixed","name":"F00","size":0}}]}', '(record (kv #65 (record)) (kv #66 (fixed 0 #)))'),
+                  ('"boolean"', '(boolean 0)'), ('["null","int"]', '(union 0 (null))'), ('{"type":"array","items":"null"}', '(array)')]:
+        cid = 'v%d' % k; k += 1
+        lines.append('%s (vw %s %s)' % (cid, hx(st), v))
+        meta[cid] = (st, v, 'canonical')
     for i in range(n):
         r = rng.fork(i)
         node, _ = gen_case_schema(r, max_depth=r.choice([1, 2, 2, 3]))
@@ -284,6 +293,7 @@ def evaluate(run, lines, meta, exe, drv):
         if valid == '1':
             want = canon(resolved[1], True) if tag(resolved) == 'ok' else None
             bad = None
+            other_writer = False
             if tag(datum) != 'ok':
                 bad = 'accepted by validation but the datum writer returns an error'
             elif tag(dec) != 'ok' or dec[2] != '#':
@@ -291,10 +301,14 @@ def evaluate(run, lines, meta, exe, drv):
             elif not same_info(parse(v), dec[1]):
                 bad = 'accepted, but reads back as %s (Value::resolve gives %s)' % (show(dec[1])[:100], show(resolved)[:100])
             elif tag(so) != 'ok' or not so[1].endswith(datum[1][1:]):
-                bad = 'single-object writer disagrees with the datum writer (%s)' % show(so)[:60]
+                bad, other_writer = 'single-object writer disagrees with the datum writer (%s)' % show(so)[:60], True
             elif tag(cont) != 'ok' or tag(cread) != 'items' or len(cread) != 2 or tag(cread[1]) != 'ok' or canon(cread[1][1], True) != canon(dec[1], True):
-                bad = 'container writer/reader disagrees with the datum writer (%s / %s)' % (show(cont)[:40], show(cread)[:80])
-            if bad:
+                bad, other_writer = 'container writer/reader disagrees with the datum writer (%s / %s)' % (show(cont)[:40], show(cread)[:80]), True
+            if bad and other_writer:
+                # the datum path is fine and another writer disagrees with it: never a known class (the classes below are
+                # about what the datum writer does with an accepted value, which the faithful model reproduces)
+                run.fail('writers-disagree:' + name, bad, case)
+            elif bad:
                 cls = classify(name, st) if faithful else None
                 if cls is None and faithful and tag(dec) == 'ok' and dec[2] == '#' and same_info(parse(v), dec[1], drop=True):
                     cls = 'bare-record-encoded-as-earlier-variant'
